@@ -67,7 +67,7 @@ def drive_b(rec, part, count):
     ops = sorted(vecops.ARITY)
     for it in range(count):
         op = rng.choice(ops)
-        n = rng.choice([2, 4, 8])
+        n = rng.choice([2, 4, 8, 8, 16, 32])
         ar = vecops.ARITY[op]
         rs, as_, bs = rng.randrange(0, 41), (rng.randrange(0, 41) if ar >= 1 else 0), (rng.randrange(0, 41) if ar == 2 else 0)
         big = op.startswith("big_")
@@ -78,10 +78,11 @@ def drive_b(rec, part, count):
         bsl = n if big_b else n + rng.choice([0, 2, 7, 33])
         mk = rng.choice(["fft64", "fft64-generic"] + ([] if big else ["ntt120"]))
         R = Buf(8 * ((rs - 1) * rsl + n) if rs else 0, fill=0x6B, off=rng.choice([0, 8, 24]))
-        A = Buf(8 * ((as_ - 1) * asl + n) if as_ else 0, fill=0x11)
-        B = Buf(8 * ((bs - 1) * bsl + n) if bs else 0, fill=0x22)
-        a = [[rng.randrange(-(1 << 20), 1 << 20) for _ in range(n)] for _ in range(as_)]
-        b = [[rng.randrange(-(1 << 20), 1 << 20) for _ in range(n)] for _ in range(bs)]
+        A = Buf(8 * ((as_ - 1) * asl + n) if as_ else 0, fill=rng.choice([0x11, 0x00]))      # between the limbs: a pattern, or zeros
+        B = Buf(8 * ((bs - 1) * bsl + n) if bs else 0, fill=rng.choice([0x22, 0x00]))
+        nulls = rng.choice([0.0, 0.0, 0.2, 0.6])                                              # share of limbs that are the zero polynomial
+        a = [[0] * n if rng.random() < nulls else [rng.randrange(-(1 << 20), 1 << 20) for _ in range(n)] for _ in range(as_)]
+        b = [[0] * n if rng.random() < nulls else [rng.randrange(-(1 << 20), 1 << 20) for _ in range(n)] for _ in range(bs)]
         for i, v in enumerate(a):
             A.i64[i * asl:i * asl + n] = v
         for i, v in enumerate(b):
